@@ -217,6 +217,23 @@ Theorem C05_ws_readahead_refuted_before_fix :
 Proof. exact ws_orig_strand_refuted. Qed.
 Print Assumptions C05_ws_readahead_refuted_before_fix.
 
+(* client session (frames from the server are not masked): a whole message was lost until more
+   bytes arrived *)
+Theorem C05_ws_client_readahead_refuted_before_fix :
+  exists arr1 arr2, concat arr1 = concat arr2 /\
+    snd (ws_arrivals (ws_client_cfg ws_orig) ws_init arr1) = [WConnected; WMsg ws_w_content] /\
+    snd (ws_arrivals (ws_client_cfg ws_orig) ws_init arr2) = [WConnected; WMsg ws_w_content; WMsg ws_w_ping].
+Proof. exact ws_orig_client_strand_refuted. Qed.
+Print Assumptions C05_ws_client_readahead_refuted_before_fix.
+
+(* the answer libcoap's own server sends is accepted by the client-side checks (for the key the
+   driver makes the client use), so C05_ws_events_function_of_bytes / C05_ws_chunking apply to
+   client sessions with c = ws_client_cfg ws_fixed as well *)
+Theorem C05_ws_response_accepted :
+  ws_run (ws_client_cfg ws_fixed) (MHs ws_flags0 []) ws_response = (MHdr [], [WConnected]).
+Proof. exact ws_response_accepted. Qed.
+Print Assumptions C05_ws_response_accepted.
+
 (* non-vacuity: the initial state meets the invariant, the concrete configuration meets the
    hypotheses, and the witnesses above behave on the repaired reader *)
 Example C05_ws_init_invariant : forall c, ws_qinv c ws_init.
@@ -237,3 +254,9 @@ Example C05_ws_nonvacuous_witnesses :
   snd (ws_arrivals (ws_server_cfg ws_fixed) ws_init [ws_w_strand]) =
     snd (ws_arrivals (ws_server_cfg ws_fixed) ws_init (ws_w_cut (len ws_request + 9) ws_w_strand)).
 Proof. exact ws_fixed_witnesses. Qed.
+
+Example C05_ws_client_nonvacuous :
+  snd (ws_arrivals (ws_client_cfg ws_fixed) ws_init [ws_w_cstream]) =
+    [WConnected; WMsg ws_w_content; WMsg ws_w_ping] /\
+  wsc_fix (ws_client_cfg ws_fixed) = ws_fixed /\ ws_drain_buf <= wsc_rxbuf (ws_client_cfg ws_fixed).
+Proof. exact ws_fixed_client_witness. Qed.
